@@ -53,6 +53,14 @@ def _emit(tree):
     return ast.unparse(tree) + "\n"
 
 
+# handler entries that are redundant on the repaired tree: dropping them changes no behaviour, so the
+# variant must be *silent* (kept as a neutral variant: it guards against an over-eager R-RAISE)
+REDUNDANT_HANDLER_ENTRIES = {
+    ("Condition._filter", "ValueError"): "since F31 has_factor / factor_of refuse strings, so `%` is never printf formatting; no callable raises ValueError on a document value",
+    ("Condition._filter", "OverflowError"): "added by F27 for '%c' formatting, which F31 made unreachable",
+}
+
+
 def gen_handler_mutants(repo):
     """Narrow / remove exception handlers at the containment sites."""
     sites = [("conditions.py", "Condition._filter", {"C01", "C07"}), ("datapath.py", "DataPath.get_data", {"C03", "C07"}), ("rules.py", "Rule.test", {"C07", "C15"})]
@@ -71,7 +79,8 @@ def gen_handler_mutants(repo):
                         tr = [n for n in ast.walk(f2) if isinstance(n, ast.Try)][ti]
                         hh = tr.handlers[hi]
                         hh.type = ast.Tuple(elts=[x for j, x in enumerate(hh.type.elts) if j != ei], ctx=ast.Load())
-                        yield (f"narrow-handler:{qual}:try{ti}:drop-{ast.unparse(e)}", mod, _emit(t2), props, "break")
+                        kind = "neutral" if (qual, ast.unparse(e)) in REDUNDANT_HANDLER_ENTRIES else "break"
+                        yield (f"narrow-handler:{qual}:try{ti}:drop-{ast.unparse(e)}", mod, _emit(t2), props, kind)
                 elif isinstance(h.type, ast.Name):
                     t2 = copy.deepcopy(tree)
                     f2 = _func(t2, qual)
@@ -240,7 +249,7 @@ def gen_text_mutants(repo):
         ("datapath.py", "                and isinstance(part.condition.callable.kwargs[\"value\"], (str, float))\n", "", {"C12"}, "simplify-emits-int-key-of-map-part", None),
         ("datapath.py", "                and (\n                    part.map_condition.callable.kwargs[\"value\"]\n                    == part.list_condition.callable.kwargs[\"value\"]\n                )\n", "", {"C12"}, "simplify-ignores-key-index-mismatch", None),
         ("conditions.py", "                except NotADataPathSpec:\n                    # Check values for DataPath specs:", "                except Exception:\n                    # Check values for DataPath specs:", {"C19"}, "probe-swallows-malformed-paths", None),
-        ("conditions.py", "                    OverflowError,  # e.g. `\"%c\" % 1114112` (a string datum makes `%` a format)\n", "", {"C01", "C07"}, "overflow-from-format-uncaught", None),
+        ("callables.py", "    if isinstance(trial_datum, str):\n        # `str % x` is string formatting, not a remainder\n        raise TypeError(\"A string has no factors.\")\n", "", {"C01", "C03", "C07"}, "string-datum-formatted-by-has_factor", None),
         ("rules.py", "            if not isinstance(descriptions, list):", "            if False:", {"C19"}, "doc-description-mapping-accepted", None),
         ("data.py", "self.callable_false = [not i for i in self.result]", "self.callable_false = [any((i, j)) for i, j in zip(fd1.callable_false, fd2.callable_false)]", {"C05"}, "combination-reason-row-from-children", None),
         ("rules.py", "        if \"shared_data\" in kwargs:\n            return out, kwargs[\"shared_data\"]", "        out = {k: v for k, v in out.items() if v}\n        if \"shared_data\" in kwargs:\n            return out, kwargs[\"shared_data\"]", {"C13"}, "rule-writer-drops-falsy-entries", "Rule.to_json_like"),
